@@ -44,6 +44,28 @@ fn main() {
             match first { None => first = Some(v.to_bits()), Some(f) => if f != v.to_bits() { eprintln!("ORACLE-FAIL len={} repeated call differs", len); fails += 1; } }
         }
     }
+    // two caller threads inside dot_f64 at the same time, each on its own exact data: state shared BETWEEN calls (statics,
+    // caches, scratch areas) is what the race detector and the oracle look at here
+    #[cfg(not(feature = "hooks"))]
+    {
+        let clens: Vec<usize> = vec![max_len, max_len / 2 + 1, 3.min(max_len)];
+        let results: Vec<(u32, u32)> = std::thread::scope(|sc| {
+            let hs: Vec<_> = (0..2u64).map(|t| { let clens = clens.clone(); sc.spawn(move || {
+                let (mut c, mut f) = (0u32, 0u32);
+                for &len in &clens {
+                    let a: Vec<f64> = (0..len).map(|i| (i as u64 + 2 + t) as f64).collect();
+                    let b: Vec<f64> = (0..len).map(|i| ((3 * i + 1) as f64) * if (i as u64 + seed + t) % 2 == 0 { -1.0 } else { 1.0 }).collect();
+                    let ex = exact(&a, &b);
+                    let v = Vector::create(a).dot_f64(&Vector::create(b));
+                    c += 1;
+                    if v != ex as f64 { eprintln!("ORACLE-FAIL concurrent caller {} len={} dot_f64={:e} exact={}", t, len, v, ex); f += 1; }
+                }
+                (c, f)
+            }) }).collect();
+            hs.into_iter().map(|h| h.join().unwrap()).collect()
+        });
+        for (c, f) in results { calls += c; fails += f; }
+    }
     #[cfg(feature = "hooks")]
     { ohsl::verif::clear_sink(); let o = orders.borrow(); eprintln!("ORDERS {}", o.iter().cloned().collect::<Vec<_>>().join(";")); }
     eprintln!("DOT-SANITIZE calls={} fails={} workers={}", calls, fails, num_cpus_hint());
